@@ -56,6 +56,33 @@ type Public struct {
 	Pedersen *pedersen.Parameters
 }
 
+// Validate checks that this configuration can take part in a protocol run: nothing is missing,
+// the threshold fits the number of parties, the secret shares are not zero and the ECDSA share
+// matches this party's own public entry.
+func (c *Config) Validate() error {
+	if c == nil || c.Group == nil || c.ECDSA == nil || c.ElGamal == nil || c.Paillier == nil {
+		return errors.New("config: missing fields")
+	}
+	if c.ID == "" || !ValidThreshold(c.Threshold, len(c.Public)) {
+		return errors.New("config: invalid party ID or threshold")
+	}
+	if c.ECDSA.IsZero() || c.ElGamal.IsZero() {
+		return errors.New("config: ECDSA or ElGamal secret key is zero")
+	}
+	for id, public := range c.Public {
+		if id == "" || public == nil || public.ECDSA == nil || public.ElGamal == nil || public.Paillier == nil || public.Pedersen == nil {
+			return errors.New("config: public data of a party is missing")
+		}
+		if public.ECDSA.IsIdentity() || public.ElGamal.IsIdentity() {
+			return fmt.Errorf("config: party %s: ECDSA or ElGamal public key is identity", id)
+		}
+	}
+	if own, ok := c.Public[c.ID]; !ok || !own.ECDSA.Equal(c.ECDSA.ActOnBase()) {
+		return errors.New("config: ECDSA share does not match this party's public data")
+	}
+	return nil
+}
+
 // PublicPoint returns the group's public ECC point.
 func (c *Config) PublicPoint() curve.Point {
 	sum := c.Group.NewPoint()
